@@ -12,7 +12,9 @@ from vlib.runner import hyp
 
 PROPERTY = 'C19'
 LEVEL = 'exploration'
-RULE = ('Initial token state: every subset of {username, access token, '
+RULE = ('Error objects also with JSON null as error / errorMessage '
+        '(still error objects). '
+'Initial token state: every subset of {username, access token, '
         'client token, profile id, profile name} present (non-empty '
         'strings); then a history of 1-25 operations over authenticate, '
         'refresh, validate, invalidate, join, sign_out, each with a '
